@@ -631,6 +631,7 @@ class System:
         eidx = self._get_index(name)
         if eidx == -1:
             raise ValueError("Component name does not exist!")
+        name = self._g[eidx]._params["name"]
         parents = self._get_parents()
         if parents[eidx] == -1:  # source node
             if not del_childs:
